@@ -688,6 +688,18 @@ func main() {
 		for _, t := range []string{" " + a, a + " ", a + "\n", "\t" + a, a + a, a[:len(a)/2], strings.ToUpper(a), strings.ToLower(a)} {
 			stringCase("whitespace-case-halves", t, true)
 		}
+		// the same 25 bytes plus a multiple of 2^200: strings that decode to 26 bytes whose low 25 bytes are a
+		// valid payload with its checksum (an implementation that lets the carry out of the top byte drop
+		// accepts them)
+		if pay, ok := specDecode(a); ok && len(pay) == 25 {
+			for _, k := range []int64{1, 2, 57, 58, 59, 255, 3364, 195112} {
+				v := new(big.Int).SetBytes(pay)
+				v.Add(v, new(big.Int).Lsh(big.NewInt(k), 200))
+				ov := specEncode(v.Bytes())
+				stringCase("overflow-2^200", ov, true)
+				stringCase("overflow-2^200", "1"+ov, bi == 0)
+			}
+		}
 		// leading '1' inserted / deleted (the canonicity check)
 		stringCase("leading-one", "1"+a, true)
 		stringCase("leading-one", "11"+a, true)
@@ -782,7 +794,7 @@ func main() {
 
 	c.Stats.Extra["violation_counts_by_site"] = perSite
 	c.Stats.Extra["derived_addresses"] = len(derived)
-	c.Stats.Rule = "go-bk base58: byte lists (0..3 leading zeros, length 0..40) and alphabet strings incl. invalid characters. Hashes: boundary (all-zero, all-ff, 1..3 leading zero bytes) + seeded random 20-byte hashes x 2 networks; keys: seeded secp256k1 keys x 2 networks (HASH160 recomputed in Gallina); key/hash byte strings of other lengths. Strings: 6 base addresses (mainnet, two leading '1's, both testnet prefixes, burn address) with EVERY single-character substitution (57 x length; model side: all for the first address, 3 per position for the others; thorough: all), all adjacent transpositions, all deletions, insertions at every position ('1' and a random character; all 58 at first/second/last position), a non-Base58 character at every position, six non-ASCII look-alikes at every position (code points U+0100/U+0400/U+4E00 + the character, the character with the top bit set, a combining accent), whitespace/case variants, leading-'1' insertion/deletion; re-encoded payloads with altered checksum (bit flip, random, checksum without version, single SHA-256), wrong version bytes {05,c4,01,6e,70,80,ef,ff} with right checksum, payload lengths 24/26 and others with right checksum, long/short/empty strings, bitcoin-script texts. Every string goes through ValidateAddress, NewAddressFromString, NewP2PKHFromAddress, PayToAddress (a sample through ChangeToAddress). Scripts: canonical template, every truncation, byte substitutions at the template positions, PUSHDATA1/2/4 encodings, hostile lengths, random bytes through PublicKeyHash/IsP2PKH/Addresses. distinct = distinct input (string / bytes / hash+network); non-trivial = strings of at least 20 characters, 20-byte hashes, real keys, scripts longer than 2 bytes, non-empty codec inputs"
+	c.Stats.Rule = "go-bk base58: byte lists (0..3 leading zeros, length 0..40) and alphabet strings incl. invalid characters. Hashes: boundary (all-zero, all-ff, 1..3 leading zero bytes) + seeded random 20-byte hashes x 2 networks; keys: seeded secp256k1 keys x 2 networks (HASH160 recomputed in Gallina); key/hash byte strings of other lengths. Strings: 6 base addresses (mainnet, two leading '1's, both testnet prefixes, burn address) with EVERY single-character substitution (57 x length; model side: all for the first address, 3 per position for the others; thorough: all), all adjacent transpositions, all deletions, insertions at every position ('1' and a random character; all 58 at first/second/last position), a non-Base58 character at every position, the payload plus k*2^200 for eight k (26-byte values whose low 25 bytes are valid), six non-ASCII look-alikes at every position (code points U+0100/U+0400/U+4E00 + the character, the character with the top bit set, a combining accent), whitespace/case variants, leading-'1' insertion/deletion; re-encoded payloads with altered checksum (bit flip, random, checksum without version, single SHA-256), wrong version bytes {05,c4,01,6e,70,80,ef,ff} with right checksum, payload lengths 24/26 and others with right checksum, long/short/empty strings, bitcoin-script texts. Every string goes through ValidateAddress, NewAddressFromString, NewP2PKHFromAddress, PayToAddress (a sample through ChangeToAddress). Scripts: canonical template, every truncation, byte substitutions at the template positions, PUSHDATA1/2/4 encodings, hostile lengths, random bytes through PublicKeyHash/IsP2PKH/Addresses. distinct = distinct input (string / bytes / hash+network); non-trivial = strings of at least 20 characters, 20-byte hashes, real keys, scripts longer than 2 bytes, non-empty codec inputs"
 	checkRetained()
 	c.Finish()
 }
